@@ -1190,7 +1190,7 @@ def _run(ctx, batch):
                  packets_not_opened_by_observer=agg["unopened"], exceptions_in_all_settings=agg["exceptions_both"],
                  distinct_nontrivial=len(outs), violations_raw=len(viol))
         outcomes_total += len(outs)
-        if agg["schedules"] > 20 and len(outs) < 3:
+        if not ctx.violations and agg["schedules"] > 20 and len(outs) < 3:
             raise core.HarnessError("vacuous: part A produced %d distinct run outcomes" % len(outs))
         ctx.sample({"part": "netsim", "scenario": "echo/retry", "settings": [sname(s) for s in SETTINGS],
                     "schedules": "default + every single deviation"})
@@ -1242,7 +1242,7 @@ def _run(ctx, batch):
                  skipped_out_of_c_contract=agg["out_of_c_contract"], distinct_nontrivial=len(classes), reaction_classes={"%s:%s" % k: n for k, n in sorted(classes.items())},
                  inputs_per_state=sizes, violations_raw=len(viol))
         outcomes_total += len(classes)
-        if len(classes) < 4:
+        if not ctx.violations and len(classes) < 4:
             raise core.HarnessError("vacuous: part B produced %d reaction classes" % len(classes))
 
     # ------------------------------------------------------------------ part C
@@ -1280,7 +1280,7 @@ def _run(ctx, batch):
         ctx.part("h3_c16_menu_frame_parsed", cases=agg["cases"], evaluations=2 * agg["cases"], transitions=agg["cases"],
                  not_enabled=agg["skipped"], qlog_documents_checked=agg["qlogs"],
                  exceptions_in_both_settings=agg["raised_both"], distinct_nontrivial=len(outs),
-                 violations_raw=len(viol), wall=round(time.time() - t0, 1))
+                 violations_raw=len(viol))
         outcomes_total += len(outs)
 
     def part_capi():
@@ -1302,7 +1302,7 @@ def _run(ctx, batch):
                  qlog_documents_checked=agg["qlogs"], exceptions_in_both_settings=agg["raised_both"],
                  distinct_nontrivial=len(outs), violations_raw=len(viol))
         outcomes_total += len(outs)
-        if len(outs) < 2:
+        if not ctx.violations and len(outs) < 2:
             raise core.HarnessError("vacuous: H3 API menu produced %d outcomes" % len(outs))
 
     if not only or "netsim" in only:
